@@ -900,3 +900,133 @@ func constFmtRule(R string) RuleFunc {
 		}
 	}
 }
+
+// c01uuid: the UUID validator looks at every character of every accepted form.
+func c01uuid(c *core.Ctx) {
+	const R = "C01.uuid"
+	c.Rule(R, "constraint.parseBytes, evaluated for each accepted length (32, 36, 38, 45) with its constant tables and loops unrolled by the analyser: every byte position of the text is examined - the dashes at 8, 13, 18, 23 of the dashed body against '-', the braces, the `urn:uuid:` prefix, and every other position as one of the two arguments of the hex-pair test xtob - and a well-formed text reaches `return nil`. A table or loop bound that stops short leaves trailing characters unchecked: `...4466554400zz` passes as a uuid")
+	c.Floor(R, 4)
+	const fn = "notations/jschema/ischema/constraint.parseBytes"
+	d := c.P.FindDecl(fn)
+	if d == nil {
+		c.Unresolved(R, fn)
+		return
+	}
+	param := d.Decl.Type.Params.List[0].Names[0].Name
+	for _, L := range []int64{32, 36, 38, 45} {
+		off := int64(0)
+		class := map[int64]string{}
+		e := &miniEval{pk: d.Pkg, env: map[string]int64{}}
+		isB := func(x ast.Expr) (ast.Expr, bool) {
+			ix, ok := ast.Unparen(x).(*ast.IndexExpr)
+			if ok && core.ExprStr(ix.X) == param {
+				return ix.Index, true
+			}
+			return nil, false
+		}
+		e.hook = func(x ast.Expr) (int64, bool) {
+			switch y := x.(type) {
+			case *ast.Ident:
+				if y.Name == "nil" {
+					return 0, true
+				}
+			case *ast.CallExpr:
+				if core.ExprStr(y.Fun) == "len" && len(y.Args) == 1 && core.ExprStr(y.Args[0]) == param {
+					return L - off, true
+				}
+				name := core.FullName(core.Callee(d.Pkg, y))
+				if strings.HasSuffix(name, ".xtob") {
+					for _, a := range y.Args {
+						if idx, ok := isB(a); ok {
+							class[off+e.expr(idx)] += "x"
+						} else {
+							e.fail("xtob argument " + core.ExprStr(a))
+						}
+					}
+					return 1, true
+				}
+				if name == "bytes.Equal" {
+					// the prefix comparison: the re-sliced operand b[:k]
+					ast.Inspect(y, func(n ast.Node) bool {
+						if se, ok := n.(*ast.SliceExpr); ok && core.ExprStr(se.X) == param && se.Low == nil && se.High != nil {
+							for i := int64(0); i < e.expr(se.High); i++ {
+								class[off+i] += "p"
+							}
+						}
+						return true
+					})
+					return 1, true
+				}
+				if t := core.TypeOf(d.Pkg, y); t != nil && core.IsErrorType(t) {
+					return 1, true
+				}
+			case *ast.SliceExpr:
+				if core.ExprStr(y.X) == param && y.High == nil && y.Low != nil {
+					off += e.expr(y.Low)
+					return 0, true
+				}
+			case *ast.BinaryExpr:
+				if y.Op == token.EQL || y.Op == token.NEQ {
+					for _, pair := range [][2]ast.Expr{{y.X, y.Y}, {y.Y, y.X}} {
+						if idx, ok := isB(pair[0]); ok {
+							if cv := core.ConstOf(d.Pkg, pair[1]); cv != nil {
+								n, _ := constantInt64(cv)
+								class[off+e.expr(idx)] += string(rune(n))
+								return b2i(y.Op == token.EQL), true
+							}
+						}
+					}
+				}
+			}
+			return 0, false
+		}
+		st, rets := e.run(d.Decl.Body.List)
+		want := map[int64]string{}
+		body := int64(0)
+		switch L {
+		case 32:
+			for i := int64(0); i < 32; i++ {
+				want[i] = "x"
+			}
+			body = -1
+		case 36:
+		case 38:
+			want[0], want[37] = "{", "}"
+			body = 1
+		case 45:
+			for i := int64(0); i < 9; i++ {
+				want[i] = "p"
+			}
+			body = 9
+		}
+		if body >= 0 {
+			for i := int64(0); i < 36; i++ {
+				switch i {
+				case 8, 13, 18, 23:
+					want[body+i] = "-"
+				default:
+					want[body+i] = "x"
+				}
+			}
+		}
+		bad := ""
+		switch {
+		case e.unknown != "":
+			bad = "undecided: " + e.unknown
+		case st != miniReturn || len(rets) != 1 || rets[0] != 0:
+			bad = "a well-formed text does not reach `return nil`"
+		default:
+			for i := int64(0); i < L; i++ {
+				if class[i] != want[i] {
+					got := class[i]
+					if got == "" {
+						got = "not examined"
+					}
+					bad = core.F("position %d of the %d-character form: %s (expected %q)", i, L, got, want[i])
+					break
+				}
+			}
+		}
+		c.Check(bad == "", R, core.F("%s:len%d", fn, L), c.P.Pos(d.Decl.Pos()), core.F("all %d positions of the %d-character form are examined by the right test", L, L), bad)
+	}
+}
